@@ -131,6 +131,11 @@ def _const_text(mod, node, env):
         return node.value
     if isinstance(node, ast.Name) and node.id in env:
         return str(env[node.id])
+    if isinstance(node, ast.Name):
+        binds = [s_ for s_ in mod.tree.body if isinstance(s_, ast.Assign) and any(isinstance(t, ast.Name) and t.id == node.id for t in s_.targets)]
+        if len(binds) == 1:
+            return _const_text(mod, binds[0].value, env)
+        return None
     if isinstance(node, ast.JoinedStr):
         out = ''
         for v in node.values:
